@@ -67,13 +67,23 @@ class Analysis:
             it = self.rit
             assume = it.assume_for(callee, which) if which else None
             hole = it._default_hole_ev if callee.fn.kind == 'ctxgen' else None
-            saved = it.loop_bound
+            saved = it.loop_bound, it.HELPER_PATHS, it.budget
             if loop_bound is not None:
                 it.loop_bound = loop_bound
             try:
-                found = it.paths_of(callee, assume, hole, which)
+                # generous helper inlining first; the usual limit when that explodes
+                found = None
+                for helper_paths, budget in ((24, 60000), (saved[1], None)):
+                    it.HELPER_PATHS, it.budget = helper_paths, budget
+                    try:
+                        found = it.paths_of(callee, assume, hole, which)
+                        if budget is None or len(found) <= 4000:
+                            break
+                    except AnalysisError:
+                        if budget is None:
+                            raise
             finally:
-                it.loop_bound = saved
+                it.loop_bound, it.HELPER_PATHS, it.budget = saved
             if len(found) > 20000:
                 raise AnalysisError('too many paths in %s' % callee)
             self._rule_paths[key] = found
